@@ -8,6 +8,7 @@ from typing import Dict, List, Optional, Set, Tuple
 
 from .clangx import call_args, callee, calls, canon_type, line_of, ref_name, statements, strip, walk
 from .core import AnalysisError, Report
+from . import rules_header as RHmod
 from .rules_header import (ERROR_FAMILY, MATRIX_KINDS, VECTOR_KINDS, _delegate, _source_of, _unwrap_specs, _var_inits, header,
                            hloc)
 
@@ -352,7 +353,11 @@ def rule_guard_truth_tables(ctx, rep: Report, rid="K10"):
             _guard_obligation(rep, rid, f, f"unwrap<{t}>:raises exactly for a non-double array",
                               {("mxIsDouble",): True}, "a matrix must come from a double array (any shape, including empty)")
     su = u.get("std::string") or u.get("string") or next((f for t, f in u.items() if "basic_string" in t or t.endswith("string")), None)
-    if su is not None:
+    if su is not None and "unwrap" in (RHmod.string_verdict(ctx) or {}):
+        n += 1
+        rep.add(rid, "unwrap<string>:raises exactly when the array is not a character array", True,
+                "decided by evaluation (K15): the converter was run on character and other arrays", hloc(su), nontrivial=False)
+    elif su is not None:
         n += 1
         if calls(su, "mxArrayToString"):
             _guard_obligation(rep, rid, su, "unwrap<string>:raises exactly when the array is not a character array (mxArrayToString gave NULL)",
